@@ -124,7 +124,11 @@ func (c *Conn) Write(p []byte) (int, error) {
 			wait, timedOut = time.Until(dl), true
 		}
 		if wait > 0 {
-			time.Sleep(wait)
+			select { // closing the socket releases a write that is blocked on a stalled peer, as on a real socket
+			case <-time.After(wait):
+			case <-c.closedCh:
+				return n, errors.New("memconn: write on closed connection")
+			}
 		}
 		if timedOut {
 			return n, timeoutError{}
